@@ -10,6 +10,7 @@ add("C20", "checks/c20_heap.c", ["heap-asan", "heap-plain"], ["heap-asan", "heap
     "random history (lower bound)",
     extra_sources=["kit/ref_queue.c"],
     exhaustive=dict(quick=False, thorough=False),
+    rule_more="stale bytes behind the terminator of the pushed text; heaps of 257+ bytes with texts of 256+ characters; texts taken with SCPI_ErrorPop and never given back",
     technique="model-based runtime monitor of the -DUSE_MEMORY_ALLOCATION_FREE=0 build: real queue + static text heap vs kit/ref_queue with the "
               "relaxed rule 'exactly the pushed text or none'; pops through SYST:ERR? (own IEEE 488.2 string reader) and through "
               "SCPI_ErrorPop + scpiheap_get_parts + scpiheap_free; text heap and queue array are exact-size mallocs under ASan+UBSan, "
